@@ -2,7 +2,7 @@ import NasdaqModel.Lemmas.RefineInstances
 /-
 Tokenisation of WELL-FORMED streams, under exactly the hypotheses of C03 (`Framing.FrameSpec`: a complete well-formed frame
 followed by anything is cut off exactly, a proper prefix of one asks for more bytes, frames are non-empty): segmentation
-independence needs no stability test there, the messages carried are C03's `expected`, and such streams are stable.
+independence needs no stability test there, and the messages carried are C03's `expected`.
 -/
 namespace NasdaqModel.Refine
 open NasdaqModel Py
@@ -108,61 +108,6 @@ theorem stable_stream {st : Bytes → Bool} (S : FrameSpec P enc wf) (hC : Consu
 namespace FixWf
 open NasdaqModel.Framing
 
-/-- the frame length computed on any buffer that starts with a complete `8=ver␁9=ds␁` is the announced one: never negative -/
-theorem fixFrameLen_header (ver ds tail : Bytes) (hv : 61 ∉ ver) (hne : ds ≠ []) (hd : ∀ d ∈ ds, isDigit d = true) :
-    fixFrameLen (fixHeader ver ds ++ tail) =
-      if find (fixHeader ver ds ++ tail) tag35 0 = none then none
-      else some ((ver.length + ds.length + 6 + digitsVal ds + 7 : Nat) : Int) := by
-  have h1 : 1 ∉ ds := digit_ne_one hd
-  have hlen : (fixHeader ver ds ++ tail).length = ver.length + ds.length + 6 + tail.length := by
-    rw [List.length_append, fixHeader_length]
-  have hEQ : find (fixHeader ver ds ++ tail) [EQ] 2 = some (ver.length + 4) := by
-    have e : fixHeader ver ds ++ tail = ([56, 61] ++ ver ++ [1, 57]) ++ 61 :: (ds ++ [1] ++ tail) := by
-      simp [fixHeader]
-    rw [e]
-    have := find_single 61 ([56, 61] ++ ver ++ [1, 57]) (ds ++ [1] ++ tail) 2 (by simp) (by simp [hv])
-    simpa [EQ] using this
-  have hSOH : find (fixHeader ver ds ++ tail) [SOH] (ver.length + 4) = some (ver.length + 5 + ds.length) := by
-    have e : fixHeader ver ds ++ tail = ([56, 61] ++ ver ++ [1, 57, 61] ++ ds) ++ 1 :: tail := by
-      simp [fixHeader]
-    rw [e]
-    have hdrop : ([56, 61] ++ ver ++ [1, 57, 61] ++ ds).drop (ver.length + 4) = 61 :: ds := by
-      have : [56, 61] ++ ver ++ [1, 57, 61] ++ ds = ([56, 61] ++ ver ++ [1, 57]) ++ (61 :: ds) := by simp
-      rw [this, List.drop_left' (by simp)]
-    have := find_single 1 ([56, 61] ++ ver ++ [1, 57, 61] ++ ds) tail (ver.length + 4) (by simp)
-      (by rw [hdrop]; simp [h1])
-    rw [SOH, this]; simp; omega
-  have hslice : pySlice (fixHeader ver ds ++ tail) (((ver.length + 4 : Nat) : Int) + 1)
-      ((ver.length + 5 + ds.length : Nat) : Int) = ds := by
-    have e1 : (((ver.length + 4 : Nat) : Int) + 1) = ((ver.length + 5 : Nat) : Int) := by omega
-    rw [e1]
-    unfold pySlice
-    rw [normIdx_nat _ _ (by rw [hlen]; omega), normIdx_nat _ _ (by rw [hlen]; omega)]
-    have e : fixHeader ver ds ++ tail = ([56, 61] ++ ver ++ [1, 57, 61]) ++ (ds ++ (1 :: tail)) := by
-      simp [fixHeader]
-    have hl : ([56, 61] ++ ver ++ [1, 57, 61]).length = ver.length + 5 := by simp
-    rw [e, ← hl, List.take_length_add_append, List.drop_left, List.take_left]
-  have hparse := parseIntBytes_digits ds hne hd
-  have hmsg : (((ver.length + 5 + ds.length : Nat) : Int) + 1) + (digitsVal ds : Int) + 7
-      = ((ver.length + ds.length + 6 + digitsVal ds + 7 : Nat) : Int) := by omega
-  cases h35 : find (fixHeader ver ds ++ tail) tag35 0 with
-  | none => unfold fixFrameLen; simp [h35]
-  | some i =>
-    rw [(fixDeser_of_parts h35 hEQ hSOH (by rw [hslice]; exact hparse)).2, hmsg]
-    simp
-
-theorem fixSt_wf (f tail : Bytes) (h : wfFixFrame f = true) : fixSt (f ++ tail) = true := by
-  obtain ⟨ver, ds, b, hf, hv, hne, hd, _, _⟩ := wfFixFrame_parts h
-  have e : f ++ tail = fixHeader ver ds ++ (tag35 ++ b ++ tail) := by rw [hf]; simp
-  unfold fixSt
-  rw [e, fixFrameLen_header ver ds _ hv hne hd]
-  split
-  · rename_i l hl
-    split at hl
-    · cases hl
-    · cases hl; simp; omega
-  · rfl
-
 /-- a well-formed frame that the dictionary dispatch and the field-level decoder accept -/
 def wfD (known : Bytes → Bool) (decode : Bytes → Except Err Unit) (f : Bytes) : Prop :=
   wfFixFrame f = true ∧ known (getMsgType f) = true ∧ decode f = .ok ()
@@ -171,17 +116,12 @@ theorem fixDeserD_none {known : Bytes → Bool} {decode : Bytes → Except Err U
     (h : fixDeser buf = .ok none) : fixDeserD known decode buf = .ok none := by
   unfold fixDeserD; simp only [h]
 
+/-- C03's three framing facts for the FIX reader WITH the dictionary dispatch -/
 theorem fixSpecD (known : Bytes → Bool) (decode : Bytes → Except Err Unit) :
     FrameSpec (fixProtoD known decode) (fun f => f) (wfD known decode) where
   nonempty := fun f h => fixSpec.nonempty f h.1
   exact := fun f rest h => fixDeserD_of (fix_exact f rest h.1) h.2.1 h.2.2
   short := fun f q h hq hne _ => fixDeserD_none (fix_short f q h.1 hq hne)
-
-/-- every stream of accepted well-formed FIX frames is stable: the hypothesis of the FIX byte-level theorems holds for all the
-    streams C03 speaks about -/
-theorem fix_wf_stable (known : Bytes → Bool) (decode : Bytes → Except Err Unit) (hk : known [] = false) (fs : List Bytes)
-    (hwf : ∀ f ∈ fs, wfD known decode f) : stable (fixProtoD known decode) fixSt (stream (fun f => f) fs) = true :=
-  stable_stream (fixSpecD known decode) (fixProtoD_consuming known decode hk) (fun f h tail => fixSt_wf f tail h.1) fs hwf
 
 end FixWf
 
